@@ -11,4 +11,14 @@ TEXT = {
   "level": "step_sound, step_complete, determinism, irreducibility of values, evaluator-finds-the-prescribed-result, exact arithmetic, truncating division, comparison and conditional laws, evaluation order of applications are kernel-checked theorems about the model for all terms and all integers. The tie to evaluator.rs is differential: all closed arithmetic/conditional terms to depth 2 over boundary operands (0, ±1, ±2^64, ±10^40 ...), samples at depth 3, recursive and mutually recursive groups, random raw terms, each compared step by step.",
   "note": "Trusted: Lean kernel, the three standard axioms, harness and driver. Modelled, not verified: evaluator.rs, de_bruijn.rs. Not modelled: the 16 MiB stack.",
  },
+ "C09": {
+  "technique": "Lean 4 proof over a tokenizer model parametric in the Unicode classifier (invariants of the scanning loop by induction on fuel; keyword table regenerated from source and decided); tied to tokenizer.rs by exhaustive short strings over a class-representative alphabet + random Unicode texts; the partition predicate searched on the implementation",
+  "level": "Kernel-checked for every text and every classifier: failures list at least one symbol, the keyword table is a bijection of whole words, literal values are positional in unbounded Nat; ordering/disjointness of ranges, totality (no panic arm), keyword-iff and lexeme=slice are stated and discharged as the proof work proceeds (pending ones are listed in the evidence). The model is tied to the code by op `tok` (token kinds, payloads, byte ranges, error ranges). The full partition predicate of C09 is evaluated on the implementation's output for every generated text.",
+  "note": "Trusted: Lean kernel, standard axioms, harness/driver, the extractor (extract/extract.py). External, assumed: Rust std Unicode tables, unicode-segmentation, num-bigint decimal parsing (exercised by correspondence).",
+ },
+ "C10": {
+  "technique": "Lean 4 proof of local scanner laws (comment = its line ending, blanks skipped, line break yields a terminator iff the regenerated can-end table says so) and `decide` over the two line-break tables regenerated from tokenizer.rs; the full render/tokenize law searched on the implementation over random token sequences and layouts",
+  "level": "Kernel-checked: a comment is skipped up to and not including its line feed (also at end of file), table obligations over all 29 token shapes (operators/opening brackets cannot end, binary operators/closing brackets cannot start, `;` does both, line-break terminator never ends), payload independence; scanner-level comment/blank/newline laws and no-two-linebreaks are stated and discharged as proof work proceeds. The unbounded render/tokenize law is pending; it is evaluated on the implementation for random token lists with every gap filled by spaces, tabs, CR, NBSP, comments (empty, multi-byte, at EOF) and line breaks.",
+  "note": "Trusted: as C09. The tables are regenerated from the source on every run, so a moved variant re-decides the obligations.",
+ },
 }
